@@ -71,6 +71,11 @@ func (monitor) op(r *FnRun, st *State, x *ssa.Call, k lockOpKind, args []Val) Va
 		if strings.HasSuffix(x.Call.StaticCallee().Name(), "Signal") || strings.HasSuffix(x.Call.StaticCallee().Name(), "Broadcast") {
 			r.ghostInc(st, "signals", True)
 		}
+		// ghost(broadcasts): number of Broadcast calls (a Signal wakes ONE waiter, which
+		// is not enough where waiters of different kinds share a condition variable)
+		if strings.HasSuffix(x.Call.StaticCallee().Name(), "Broadcast") {
+			r.ghostInc(st, "broadcasts", True)
+		}
 		return ret()
 	}
 	mv := x.Call.Args[0]
